@@ -97,11 +97,11 @@ def liftCmdErr : CmdErr → StepResult
 def getCommand (T : Table) (loaded : List Bytes) (ident : Bytes) (checkexists : Bool := true) :
     Except PErr CmdDef :=
   match T.lookup ident with
-  | none => throw (.unknownCommand ident)
+  | none => .error (.unknownCommand ident)
   | some d =>
-    match d.extension with
-    | some e => if checkexists && !decide (e ∈ loaded) then throw (.extNotLoaded e) else pure d
-    | none => pure d
+    if checkexists && Args.extMissing d.extension loaded then
+      .error (.extNotLoaded (d.extension.getD []))
+    else .ok d
 
 /-- the `while self.__curcommand:` loop of `__up`; `f` is the frame being left.
     Returns the new stack and whether `comma|right_parenthesis` becomes expected. -/
@@ -115,15 +115,15 @@ def upLoop (f : Frame) : List Frame → List Frame × Bool
 /-- `__up()` -/
 def up (s : PState) : Except String PState :=
   match s.stack with
-  | [] => throw "AttributeError: NoneType (up without current command)"
+  | [] => .error "AttributeError: NoneType (up without current command)"
   | f :: rest =>
     let s1 : PState :=
       match rest with
       | [] => { s with result := s.result ++ [Frame.toNode f s.comments], comments := [] }
       | _ => s
     let (stk, exp) := upLoop f rest
-    pure { s1 with stack := stk,
-                   expected := if exp then some [.comma, .right_parenthesis] else s1.expected }
+    .ok { s1 with stack := stk,
+                  expected := if exp then some [.comma, .right_parenthesis] else s1.expected }
 
 structure ComplOut where
   ok : Bool
@@ -132,36 +132,38 @@ structure ComplOut where
 
 /-- the `while self.__curcommand.parent:` loop of `__check_command_completion` -/
 def complLoop (loaded : List Bytes) (f : Frame) : List Frame → Except CmdErr ComplOut
-  | [] => pure ⟨true, [f], none⟩
+  | [] => .ok ⟨true, [f], none⟩
   | p :: rest =>
     let p' := plug p f.attach (Frame.toNode f)
     if p'.d.kind == .control || p'.d.kind == .test then
       if Frame.complete p' then
-        if p'.d.kind == .control then pure ⟨true, p' :: rest, some [.left_cbracket]⟩
+        if p'.d.kind == .control then .ok ⟨true, p' :: rest, some [.left_cbracket]⟩
         else complLoop loaded p' rest
       else
         match Args.checkNextArg p'.d loaded p'.st .test (.test (Frame.toNode f)) (add := false) with
-        | .error e => throw e
-        | .ok none => pure ⟨false, p' :: rest, none⟩
+        | .error e => .error e
+        | .ok none => .ok ⟨false, p' :: rest, none⟩
         | .ok (some (st', _)) =>
           let p'' := { p' with st := st' }
           if !Frame.complete p'' then
-            pure ⟨true, p'' :: rest, if p''.d.variableArgs then some [.comma, .right_parenthesis] else none⟩
+            .ok ⟨true, p'' :: rest, if p''.d.variableArgs then some [.comma, .right_parenthesis] else none⟩
           else complLoop loaded p'' rest
     else complLoop loaded p' rest
 
 /-- `__check_command_completion(testsemicolon)`: returns (ok, state) -/
 def completion (s : PState) (testsemicolon : Bool) : Except CmdErr (Bool × PState) :=
   match s.stack with
-  | [] => throw (.crash "AttributeError: NoneType (completion without current command)")
+  | [] => .error (.crash "AttributeError: NoneType (completion without current command)")
   | f :: rest =>
-    if !Frame.complete f then pure (true, s)
+    if !Frame.complete f then .ok (true, s)
     else if f.d.kind == .action || (f.d.kind == .control && !f.d.acceptChildren) then
-      pure (true, if testsemicolon then { s with expected := some [.semicolon] } else s)
-    else do
-      let o ← complLoop s.loaded f rest
-      pure (o.ok, { s with stack := o.stack,
-                           expected := match o.expected with | some e => some e | none => s.expected })
+      .ok (true, if testsemicolon then { s with expected := some [.semicolon] } else s)
+    else
+      match complLoop s.loaded f rest with
+      | .error e => .error e
+      | .ok o =>
+        .ok (o.ok, { s with stack := o.stack,
+                            expected := match o.expected with | some e => some e | none => s.expected })
 
 /-- `__pop_expected_bracket` -/
 def popBracket (s : PState) (k : TokKind) : Option PState :=
@@ -169,16 +171,23 @@ def popBracket (s : PState) (k : TokKind) : Option PState :=
   | [] => none
   | b :: rest => if b == k then some { s with brackets := rest } else none
 
+/-- the capability strings of a `require` frame (`arguments["capabilities"]`, str or list) -/
+def capabilityArgs (args : List Arg) : List Bytes :=
+  match assocGet args "capabilities" with
+  | some (.str _ v) => [v]
+  | some (.strs _ vs) => vs
+  | _ => []
+
+/-- `ext = ext.strip('"'); if ext not in loaded: loaded += [ext]` -/
+def addExt (loaded : List Bytes) (e : Bytes) : List Bytes :=
+  if decide (B.stripC 34 e ∈ loaded) then loaded else loaded ++ [B.stripC 34 e]
+
+def addExts (loaded : List Bytes) (exts : List Bytes) : List Bytes := exts.foldl addExt loaded
+
 /-- `RequireCommand.complete_cb` (other classes: no-op) -/
 def completeCb (f : Frame) (loaded : List Bytes) : List Bytes :=
   match f.d.special with
-  | .require =>
-    let exts : List Bytes :=
-      match assocGet f.st.arguments "capabilities" with
-      | some (.str _ v) => [v]
-      | some (.strs _ vs) => vs
-      | _ => []
-    exts.foldl (fun acc e => let e' := B.stripC 34 e; if decide (e' ∈ acc) then acc else acc ++ [e']) loaded
+  | .require => addExts loaded (capabilityArgs f.st.arguments)
   | _ => loaded
 
 /-- `HasflagCommand.reassign_arguments`; `none` = returned False -/
@@ -202,12 +211,12 @@ def withTop (s : PState) (f : Frame) : PState :=
 /-- apply `cur.check_next_arg(t, v)`; `ok (false, s)` = returned False -/
 def curCheck (s : PState) (t : ArgType) (v : AVal) : Except CmdErr (Bool × PState × Placement) :=
   match s.stack with
-  | [] => throw (.crash "AttributeError: NoneType (argument without current command)")
+  | [] => .error (.crash "AttributeError: NoneType (argument without current command)")
   | f :: _ =>
     match Args.checkNextArg f.d s.loaded f.st t v with
-    | .error e => throw e
-    | .ok none => pure (false, s, .nowhere)
-    | .ok (some (st', pl)) => pure (true, withTop s { f with st := st' }, pl)
+    | .error e => .error e
+    | .ok none => .ok (false, s, .nowhere)
+    | .ok (some (st', pl)) => .ok (true, withTop s { f with st := st' }, pl)
 
 /-- result of a state function: Python's True/False plus the rewind flag -/
 inductive FnResult where
